@@ -152,10 +152,15 @@ func staleGuards(guards []string, assigned map[string]bool) []string {
 	if len(assigned) == 0 {
 		return guards
 	}
+	names := make([]string, 0, len(assigned))
+	for name := range assigned {
+		names = append(names, name)
+	}
+	sort.Strings(names) // map order must not reach the inventory
 	out := make([]string, len(guards))
 	for i, g := range guards {
 		out[i] = g
-		for name := range assigned {
+		for _, name := range names {
 			if strings.Contains(g, "[stale: "+name+" ") {
 				continue
 			}
